@@ -224,3 +224,10 @@ def run(ctx):
     r10_3(ctx, R, ms)
     r10_4(ctx, R, ms)
     r10_5(ctx, R, ms)
+    import c02
+    import shared_links
+    res = c02.r2_3(ctx, R)
+    ctx.obs = [o for o in ctx.obs if not o.rule.startswith("R2.3")]
+    ctx.rule_texts.pop("R2.3", None)
+    if res["INSERT"][0]:
+        shared_links.adapter_links(ctx, R, res["INSERT"][0], res["INSERT"][1])
